@@ -429,3 +429,20 @@ def mx_case(table, use):
 def mx_defs(table):
     return ["#define %s%s %s" % (name, "" if ar is None else "(" + ", ".join("p%d" % k for k in range(ar)) + ")", mx_render(body))
             for name, ar, body in table]
+
+
+# ---- # applied to arguments written without white space (tie of the stringizing model)
+def gen_hash_arg(rng):
+    """tokens that can be written back to back without changing the lexing"""
+    pat = rng.choice(["l", "l", "i", "n", "iol", "lon", "noi", "lol", "iolon"])
+    out = []
+    for k in pat:
+        if k == "l":
+            out.append(lit(rng))
+        elif k == "i":
+            out.append(rng.choice(["foo", "x1", "_t"]))      # never a literal prefix
+        elif k == "n":
+            out.append(rng.choice(["0", "42", "7"]))
+        else:
+            out.append(rng.choice(["+", "-", "*", "<", "==", "!=", "|"]))
+    return out
